@@ -309,6 +309,11 @@ class LRI(dict):
                 setitem(k, F[k])
             return
 
+    def __ior__(self, other):
+        # dict.__ior__ writes to the dict storage only: no eviction, no ring update
+        self.update(other)
+        return self
+
     def __eq__(self, other):
         with self._lock:
             if self is other:
